@@ -64,3 +64,10 @@ func RunFuzz(prop func(*rapid.T), input []byte) HostRes {
 	f := rapid.MakeFuzz(prop)
 	return Hosted(func(t *testing.T) { f(t, input) })
 }
+
+// RunFuzzCfg is RunFuzz under the flag settings of cfg (Repeat reads -rapid.steps).
+func RunFuzzCfg(cfg CheckCfg, prop func(*rapid.T), input []byte) HostRes {
+	applyCfg(cfg)
+	defer resetFlags()
+	return RunFuzz(prop, input)
+}
